@@ -412,13 +412,13 @@ def anchor_ranges(P):
         if len(parts) == 1:
             for n in tree.body:
                 if isinstance(n, funcs) and fnmatch.fnmatchcase(n.name, parts[0]):
-                    out[(rel, n.name)] = (n.lineno, n.end_lineno)
+                    out[(rel, n.name)] = (n.body[0].lineno, n.end_lineno)
         else:
             for c in tree.body:
                 if isinstance(c, ast.ClassDef) and fnmatch.fnmatchcase(c.name, parts[0]):
                     for n in c.body:
                         if isinstance(n, funcs) and fnmatch.fnmatchcase(n.name, parts[1]):
-                            out[(rel, c.name + "." + n.name)] = (n.lineno, n.end_lineno)
+                            out[(rel, c.name + "." + n.name)] = (n.body[0].lineno, n.end_lineno)
     return out
 
 
